@@ -185,6 +185,10 @@ func (m mut) coq() string {
 func (e *env) apply(m mut) error {
 	w := e.st.Write(m.ID)
 	defer w.Close()
+	return applyIn(w, m)
+}
+
+func applyIn(w store.WriteTxn, m mut) error {
 	switch m.Op {
 	case "c":
 		return w.Create(m.val())
@@ -192,6 +196,33 @@ func (e *env) apply(m mut) error {
 		return w.Update(m.val())
 	}
 	return w.Delete()
+}
+
+// applyAll applies a mutation list. Consecutive mutations on the same id are, depending on the position, made
+// through ONE write transaction (sometimes after a Value() call on it): what an application handler that does
+// several things to a resource looks like, and what a per-transaction cache must survive.
+func (e *env) applyAll(ms []mut) {
+	for i := 0; i < len(ms); {
+		j := i + 1
+		for j < len(ms) && ms[j].ID == ms[i].ID {
+			j++
+		}
+		if j-i >= 2 && (i+len(ms))%3 != 0 {
+			w := e.st.Write(ms[i].ID)
+			if (i+j)%2 == 0 {
+				w.Value()
+			}
+			for k := i; k < j; k++ {
+				applyIn(w, ms[k])
+			}
+			w.Close()
+		} else {
+			for k := i; k < j; k++ {
+				e.apply(ms[k])
+			}
+		}
+		i = j
+	}
 }
 
 // query runs one index query; kind 0 ok, 1 error, 2 panic.
@@ -411,9 +442,7 @@ func runC13(d c13desc, dist map[string]int, impl *[]ImplViolation) Case {
 			}
 		}()
 	}
-	for _, m := range d.Muts {
-		e.apply(m)
-	}
+	e.applyAll(d.Muts)
 	e.qs.Flush()
 	atomic.StoreInt32(&stop, 1)
 	wg.Wait()
@@ -999,9 +1028,7 @@ func runC14(d c14desc, dist map[string]int, impl *[]ImplViolation) Case {
 		}
 		cur := seg
 		mu.Unlock()
-		for _, m := range ms {
-			e.apply(m)
-		}
+		e.applyAll(ms)
 		e.qs.Flush()
 		gwDone := make(chan struct{})
 		go func() { gwWG.Wait(); close(gwDone) }()
